@@ -29,6 +29,7 @@ func genProg(t *rapid.T) Prog {
 	if g.chance(1) && g.on(kBigOffsets) {
 		g.bigFirstFunc()
 	}
+	g.genLib()
 	g.genStructs()
 	// helpers usable by global initialisers come first
 	if g.chance(60) {
@@ -40,6 +41,7 @@ func genProg(t *rapid.T) Prog {
 	}
 	g.genGlobals()
 	g.genInits()
+	g.genDeploy()
 	if len(g.pr.Structs) > 0 {
 		nm := g.rng(1, 2, "nmeth")
 		for i := 0; i < nm; i++ {
@@ -65,6 +67,16 @@ func genProg(t *rapid.T) Prog {
 	}
 	if g.markFn {
 		g.pr.Funcs = append(g.pr.Funcs, markFunc())
+	}
+	if g.libUsed {
+		g.pr.Lib = g.libFuncs
+		g.mark("imported-package")
+	}
+	if g.tickpFn {
+		g.pr.Funcs = append(g.pr.Funcs, tickpFunc())
+	}
+	if g.tick2Fn {
+		g.pr.Funcs = append(g.pr.Funcs, tick2Func())
 	}
 	if g.chance(3) {
 		// An exported function with type-only or blank parameters is valid Go; the compiler documents that it refuses
@@ -108,6 +120,24 @@ func (g *gen) bigFirstFunc() {
 	g.funcs = append(g.funcs, sig)
 	g.pr.Funcs = append(g.pr.Funcs, Func{Name: sig.name, Params: sig.params, Results: []Field{{Type: "int"}}, Body: body})
 	g.mark("big-first-func")
+}
+
+// genLib: in some programs, one or two exported functions func Lk(p0 int) int { return e } of a package of their own that
+// the program imports (when some statement uses them, see stLibFunc). They see their parameter only.
+func (g *gen) genLib() {
+	if !g.chance(10) {
+		return
+	}
+	for i, k := 0, g.rng(1, 2, "nlib"); i < k; i++ {
+		g.f = &fctx{sig: &fsig{safe: true, pure: true}, noPanic: true, noGlobals: true, pure: true, inLambda: true, budget: 30, mult: 1}
+		g.push()
+		g.add(&vinfo{name: "p0", typ: "int", lo: -storeB, hi: storeB, param: true})
+		body := fitStore(g.genInt(2))
+		g.pop()
+		g.f = nil
+		g.libFuncs = append(g.libFuncs, Func{Name: fmt.Sprintf("L%d", i), Params: []Field{{"p0", "int"}}, Results: []Field{{"", "int"}},
+			Body: []*Node{{K: "return", A: []*Node{body.n}}}})
+	}
 }
 
 func (g *gen) genStructs() {
@@ -321,6 +351,89 @@ func (g *gen) genInits() {
 	}
 	g.f = nil
 	g.mark("init-func")
+}
+
+// genDeploy generates func _deploy(data any, isUpdate bool): the method ContractManagement calls right after
+// _initialize when the contract is deployed. Its body is what an init() body is (statements over the package variables
+// that can not panic, function literals included) and may read isUpdate. Both sides run it once after the
+// initialisation, in front of every call: the package state the exported functions see depends on the compiler having
+// put _deploy where the manifest says it is.
+func (g *gen) genDeploy() {
+	if len(g.globals) == 0 || !g.chance(19) {
+		return
+	}
+	g.f = &fctx{sig: &fsig{safe: true}, noPanic: true, inInit: true, budget: 150, mult: 1}
+	g.push()
+	g.add(&vinfo{name: "isUpdate", typ: "bool", ro: true, param: true})
+	var body []*Node
+	if g.chance(25) {
+		// an early return: the rest of _deploy is skipped, nothing else
+		st, _ := g.genStmts(2)
+		c := ex{n: vr("isUpdate")}
+		if g.chance(70) {
+			c = g.genBool(2)
+			if c.konst {
+				c = g.genBool(0)
+			}
+		}
+		if c.konst {
+			c = ex{n: un("!", vr("isUpdate"))}
+		}
+		body = append(st, &Node{K: "if", A: []*Node{none(), c.n}, B: []*Node{blk([]*Node{{K: "return"}}), none()}})
+		g.mark("deploy-return")
+	}
+	st, _ := g.genStmts(4)
+	body = append(body, st...)
+	if !g.f.sig.writesG {
+		// whatever the statements above did, a deployment leaves a mark on the package state
+		if w := g.globalMark(); w != nil {
+			if g.chance(50) {
+				body = append([]*Node{w}, body...)
+			} else {
+				body = append(body, w)
+			}
+		}
+	}
+	g.pop()
+	g.f = nil
+	g.pr.HasDeploy, g.pr.Deploy, g.pr.DeployLast = true, body, g.chance(30)
+	g.mark("deploy-func")
+}
+
+// globalMark is a statement that certainly changes a package variable (nil when no variable lends itself to it).
+func (g *gen) globalMark() *Node {
+	var c []*Node
+	for _, v := range g.globals {
+		if v.ro || v.hidden {
+			continue
+		}
+		k := ilit(int64(g.rng(1, 9, "gmk")))
+		switch v.typ {
+		case "int":
+			if v.wide {
+				c = append(c, &Node{K: "assign", S: "=", A: []*Node{vr(v.name), bin("%", bin("+", bin("*", vr(v.name), ilit(7)), k), ilit(1000003))}})
+			}
+		case "bool":
+			c = append(c, &Node{K: "assign", S: "=", A: []*Node{vr(v.name), un("!", vr(v.name))}})
+		case "map[int]int":
+			c = append(c, &Node{K: "assign", S: "=", A: []*Node{{K: "index", A: []*Node{vr(v.name), ilit(4)}}, k}})
+		case "T1", "*T0":
+			fld := "x"
+			if v.typ == "*T0" {
+				fld = "a"
+			}
+			t := &Node{K: "field", S: fld, A: []*Node{selBase(v)}}
+			c = append(c, &Node{K: "assign", S: "=", A: []*Node{t, bin("%", bin("+", bin("*", t, ilit(7)), k), ilit(1000003))}})
+		}
+	}
+	if len(c) == 0 {
+		return nil
+	}
+	n := c[g.n(len(c), "gm")]
+	g.noteWrite(n.A[0])
+	g.account(1)
+	g.mark("deploy-marks-state")
+	return n
 }
 
 var paramTypes = []string{"int", "int", "int", "bool", "string", "[]int", "map[int]int"}
